@@ -966,6 +966,18 @@ func (e *Env) evalCall(n *ast.CallExpr) Val {
 		return intVal(sx("imax", arg(0).S, arg(1).S), nil)
 	case "bxor", "band", "bor":
 		return intVal(sx(fname, arg(0).S, arg(1).S), nil)
+	case "f64add", "f64sub", "f64mul", "f64div":
+		// the uninterpreted float64 operations the executor uses for +, -, *, / (floating point is
+		// not interpreted: two float values are provably equal only if built by the same operations)
+		if !need(2) {
+			return intVal("0", nil)
+		}
+		return intVal(sx(fname, arg(0).S, arg(1).S), nil)
+	case "f64ofint", "f64const":
+		if !need(1) {
+			return intVal("0", nil)
+		}
+		return intVal(sx(fname, arg(0).S), nil)
 	case "forall", "exists":
 		// forall(i, body) | forall(i, lo, hi, body)   (i ranges over Int; lo <= i < hi)
 		if len(n.Args) != 2 && len(n.Args) != 4 {
@@ -1201,9 +1213,11 @@ func (e *Env) evalCall(n *ast.CallExpr) Val {
 		v := arg(0)
 		id := map[string]string{"recvcat": "906", "sentcat": "907"}[fname]
 		return seqVal(e.r.bind(e.st, sx("select", e.st.heap["S"], sx("fld", v.S, id)), fname, "BSeq"))
-	case "recvsum", "recvcount", "sentcount", "chanclosed", "sentsum":
+	case "recvsum", "recvcount", "sentcount", "chanclosed", "sentsum", "polled":
+		// polled(ch): how many times a receive on ch was offered to the scheduler (a plain receive, or a
+		// receive case of a select, whichever case was taken) - "the code looked at this channel"
 		v := arg(0)
-		id := map[string]int{"recvsum": 901, "recvcount": 902, "sentcount": 903, "chanclosed": 904, "sentsum": 905}[fname]
+		id := map[string]int{"recvsum": 901, "recvcount": 902, "sentcount": 903, "chanclosed": 904, "sentsum": 905, "polled": 908}[fname]
 		cell := sx("fld", v.S, fmt.Sprint(id))
 		if fname == "chanclosed" {
 			return boolVal(e.r.bind(e.st, sx("select", e.st.heap["B"], cell), fname, "Bool"))
